@@ -302,6 +302,9 @@ fn bloat() -> BoxedStrategy<Vec<(u16, u16)>> {
     prop_oneof![
         5 => Just(vec![]),
         3 => proptest::collection::vec((proptest::sample::select(vec![35u16, 2048, 3, 15, 65000]), 0u16..60), 0..3),
+        // options a block-wise exchange may carry and a handler may look at:
+        // Size1 / Size2 (with values of 1..4 bytes), ETag, If-Match, Observe
+        2 => proptest::collection::vec((proptest::sample::select(vec![60u16, 28, 4, 1, 6, 60]), 0u16..=4), 1..3),
         2 => (proptest::sample::select(vec![35u16, 2048]), 1100u16..=1400).prop_map(|x| vec![x]),
         1 => proptest::collection::vec((proptest::sample::select(vec![35u16, 2048, 15]), 200u16..700), 1..3),
     ]
